@@ -5,6 +5,7 @@ package main
 import (
 	"encoding/json"
 	"fmt"
+	"github.com/formancehq/numscript/internal/analysis"
 	"io"
 	"os"
 	"sort"
@@ -417,10 +418,23 @@ func (rn *runner) replay(ops []op, label string) bool {
 				c.Violation("diagnostics-not-published", fmt.Sprintf("step %d %s published %v", i, o, notifs), desc(i))
 				return false
 			}
+			// independently of any server: exactly the diagnostics of a fresh analysis of that text
+			if msg := diagnosticsMatchAnalysis(notifs[0], written); msg != "" {
+				c.Violation("diagnostics-differ-from-analysis:"+o.kind, fmt.Sprintf("step %d %s: %s", i, o, msg), desc(i))
+				return false
+			}
+			c.Count("notifications_compared_with_the_analysis", 1)
 		} else {
 			if len(notifs) != 0 {
 				c.Violation("unexpected-notification", fmt.Sprintf("step %d %s (a query) wrote %v to stdout", i, o, notifs), desc(i))
 				return false
+			}
+			if o.kind == "symbols" {
+				if msg := symbolsMatchAnalysis(resp, latest[o.uri], hasLatest(latest, o.uri)); msg != "" {
+					c.Violation("symbols-differ-from-analysis", fmt.Sprintf("step %d %s: %s", i, o, msg), desc(i))
+					return false
+				}
+				c.Count("symbol_answers_compared_with_the_analysis", 1)
 			}
 			if writesSoFar >= 2 {
 				c.Count("queries_after_two_or_more_writes", 1)
@@ -429,6 +443,79 @@ func (rn *runner) replay(ops []op, label string) bool {
 	}
 	c.Count("histories_replayed", 1)
 	return true
+}
+
+func hasLatest(m map[int]string, u int) bool { _, ok := m[u]; return ok }
+
+// diagnosticsMatchAnalysis compares a publishDiagnostics notification with analysis.CheckSource
+// of the text: same number of diagnostics, same multiset of (start, end, message).
+func diagnosticsMatchAnalysis(notif, text string) string {
+	var n struct {
+		Params struct {
+			Diagnostics []struct {
+				Range   lspRange `json:"range"`
+				Message string   `json:"message"`
+			} `json:"diagnostics"`
+		} `json:"params"`
+	}
+	if err := json.Unmarshal([]byte(notif), &n); err != nil {
+		return "the notification is not JSON: " + err.Error()
+	}
+	var want, got []string
+	var res analysis.CheckResult
+	if p, _, _ := fw.Catch(func() { res = analysis.CheckSource(text) }); p {
+		return ""
+	}
+	for _, d := range res.Diagnostics {
+		msg := ""
+		fw.Catch(func() { msg = d.Kind.Message() })
+		want = append(want, fmt.Sprintf("%d:%d-%d:%d %s", d.Range.Start.Line, d.Range.Start.Character, d.Range.End.Line, d.Range.End.Character, msg))
+	}
+	for _, d := range n.Params.Diagnostics {
+		got = append(got, fmt.Sprintf("%d:%d-%d:%d %s", d.Range.Start.Line, d.Range.Start.Character, d.Range.End.Line, d.Range.End.Character, d.Message))
+	}
+	sort.Strings(want)
+	sort.Strings(got)
+	if strings.Join(want, "\n") != strings.Join(got, "\n") {
+		return fmt.Sprintf("published diagnostics %q; a fresh analysis of the text gives %q", got, want)
+	}
+	return ""
+}
+
+// symbolsMatchAnalysis compares a documentSymbol answer with the symbols of a fresh analysis.
+func symbolsMatchAnalysis(resp, text string, open bool) string {
+	if !open {
+		if resp != "null" && resp != "[]" {
+			return "symbols answered for a document that was never opened: " + resp
+		}
+		return ""
+	}
+	var got []struct {
+		Name  string   `json:"name"`
+		Range lspRange `json:"range"`
+	}
+	if resp != "null" {
+		if err := json.Unmarshal([]byte(resp), &got); err != nil {
+			return "the answer is not a symbol list: " + resp
+		}
+	}
+	var res analysis.CheckResult
+	if p, _, _ := fw.Catch(func() { res = analysis.CheckSource(text) }); p {
+		return ""
+	}
+	var w, g []string
+	for _, s := range res.GetSymbols() {
+		w = append(w, fmt.Sprintf("%s@%d:%d", s.Name, s.Range.Start.Line, s.Range.Start.Character))
+	}
+	for _, s := range got {
+		g = append(g, fmt.Sprintf("%s@%d:%d", s.Name, s.Range.Start.Line, s.Range.Start.Character))
+	}
+	sort.Strings(w)
+	sort.Strings(g)
+	if strings.Join(w, " ") != strings.Join(g, " ") {
+		return fmt.Sprintf("symbols %v; a fresh analysis of the latest text gives %v", g, w)
+	}
+	return ""
 }
 
 func alphabet() []op {
